@@ -1,0 +1,14 @@
+//go:build verif
+
+package manager
+
+// VerifGate, when set by the verification harness, is called by every background job right
+// before it posts its completion to the service loop; the harness blocks there to choose the
+// order in which completions are delivered.
+var VerifGate func(job string, args ...string)
+
+func verifGate(job string, args ...string) {
+	if g := VerifGate; g != nil {
+		g(job, args...)
+	}
+}
